@@ -99,7 +99,7 @@ inline std::vector<int> mk_index_list(Rd& r, int n, bool* adv) {
 // sink so the optimiser cannot drop results
 inline void use(const arr_real& a) { volatile double s = 0; for (int i = 0; i < a.size(); ++i) s = s + a[i]; }
 inline void use(const arr_cmplx& a) { volatile double s = 0; for (int i = 0; i < a.size(); ++i) s = s + a[i].re + a[i].im; }
-inline void use(const arr_int& a) { volatile int s = 0; for (int i = 0; i < a.size(); ++i) s = s + a[i]; }
+inline void use(const arr_int& a) { volatile unsigned s = 0; for (int i = 0; i < a.size(); ++i) s = s + unsigned(a[i]); }   // unsigned: the sink itself must not overflow
 inline void use(const std::vector<bool>& a) { volatile int s = 0; for (bool b : a) s = s + b; }
 inline void use(double v) { volatile double s = v; (void)s; }
 
